@@ -180,6 +180,8 @@ MUTANTS = [
      "        with open(source, encoding=encoding) as fh:\n            return list(codec.iterdecode(fh))",
      "        with open(source, encoding=encoding, newline='\\n') as fh:\n            return list(codec.iterdecode(fh))",
      ['C09'], False, []),
+    ('c06-hang-on-surprise', 'penman/layout.py',
+     "            skipped.insert(0, data.pop())", "            skipped.insert(0, data[-1])", ['C06'], False, []),
     # ---- behaviour-preserving refactorings: every check must stay silent ------------------------------
     ('refactor-rename-locals', 'penman/graph.py',
      "            removed = set(other.triples)\n            self.triples[:] = [t for t in self.triples if t not in removed]\n            for t in removed:",
@@ -226,7 +228,7 @@ def main():
             open(fp, 'w').write(s)
             tests = 'skipped'
             if not os.environ.get('NOPYTEST'):
-                t = sh(f'cd {SCRATCH} && /venv/bin/python -m pytest -q -p no:cacheprovider -x 2>&1 | tail -1')
+                t = sh(f"cd {SCRATCH} && timeout 300 /venv/bin/python -m pytest -q -p no:cacheprovider -x 2>&1 | tail -1")
                 tests = t.stdout.strip()
             row = {'mutant': name, 'tests': tests, 'expected': props, 'preserving': preserving, 'caught_by': [], 'silent': []}
             for pid in (ALL if (preserving or os.environ.get('ALLPROPS')) else props):
